@@ -34,11 +34,17 @@ class dtype(object):
     _names = {"f": "float64", "i": "int64", "b": "bool", "O": "object", "U": "<U1", "S": "|S1", "u": "uint64",
               "M": "datetime64", "m": "timedelta64", "c": "complex128"}
 
+    _singletons = {}
+
     def __new__(cls, spec):
         if isinstance(spec, dtype):
             return spec
-        self = object.__new__(cls)
-        self.kind = _kind_of_spec(spec)
+        kind = _kind_of_spec(spec)
+        self = cls._singletons.get(kind)      # NumPy's builtin dtypes are singletons: code compares them with `is`
+        if self is None:
+            self = object.__new__(cls)
+            self.kind = kind
+            cls._singletons[kind] = self
         return self
 
     @property
@@ -372,8 +378,10 @@ class ndarray(object):
     def take(self, indices, axis=None, mode="raise", out=None):
         return take(self, indices, axis=axis, mode=mode)
 
-    def compress(self, mask, axis=None):
-        return compress(mask, self, axis=axis)
+    def compress(self, condition, axis=None, out=None):
+        if out is not None:
+            raise OutOfSubset("compress(out=)")
+        return compress(condition, self, axis=axis)
 
     def repeat(self, n, axis=None):
         return repeat(self, n, axis=axis)
@@ -1687,6 +1695,12 @@ def all(a, axis=None, **kw):
 def any(a, axis=None, **kw):
     if isinstance(a, (bool, SymBool)):
         return a
+    if axis == 0 and isinstance(a, (list, tuple)) and a and builtins.all(isinstance(x, ndarray) and x.kind == "b" for x in a):
+        # np.any([mask1, mask2, ...], axis=0): elementwise OR of equally shaped masks
+        out = a[0]
+        for x in a[1:]:
+            out = _elementwise2(out, x, "or")
+        return out
     if isinstance(a, (list, tuple)) and builtins.all(isinstance(x, (bool, SymBool)) for x in a):
         return mkbool(sym.lor(*a))
     a = asarray(a)
